@@ -31,7 +31,8 @@ RULE = (
     "Concretization / TracerBoolConversion / TracerArrayConversion error may occur; a spy array records every "
     "attribute and special method the check touches; directed cases: PRNG-key parameters (new and old style) next to "
     "numeric ones, the same array object at several '?' leaf positions, 0-d arrays, each eager / jit / eval_shape / "
-    "vmap / jit(vmap) and again in reverse order; non-trivial = >=2 parameters share an axis name or a "
+    "vmap / jit(vmap) and again in reverse order; three arrays of one multi-axis name handed over through **kwargs / inside a dict in every "
+    "written order (tracing sorts the keys): one verdict for all orders, eager and traced; non-trivial = >=2 parameters share an axis name or a "
     "PyTree parameter is present; distinct by (signature, shapes)"
 )
 TRUSTED = [
@@ -352,6 +353,60 @@ def directed_cases(out, rng):
                     break
 
 
+def keyword_order_cases(out):
+    """arrays handed over through `**kwargs` or inside a dict: eagerly they are checked in the order the caller wrote
+    them, tracing rebuilds keyword arguments and dicts with sorted keys. Same arrays, same shapes and dtypes: the
+    verdict must not depend on the order, hence not on eager vs traced either (multi-axis names with and without
+    `#`, three arrays, two of which do not broadcast against each other but both against the third)."""
+    import itertools
+    from typing import Dict
+
+    from jaxtyping import Float
+
+    tc = typeguard.typechecked
+
+    @jaxtyped(typechecker=tc)
+    def kw_b(**arrs: Float[jax.Array, "*#b"]):
+        return 0.0
+
+    @jaxtyped(typechecker=tc)
+    def kw_v(**arrs: Float[jax.Array, "*b 3"]):
+        return 0.0
+
+    @jaxtyped(typechecker=tc)
+    def dict_b(arrs: Dict[str, Float[jax.Array, "*#b"]]):
+        return 0.0
+
+    @jaxtyped(typechecker=tc)
+    def dict_ret(arrs: Dict[str, Float[jax.Array, "*#b"]]) -> Float[jax.Array, "*b"]:
+        return jnp.zeros(jnp.broadcast_shapes(*[v.shape for v in arrs.values()]), jnp.float32)
+
+    pools = [[(1, 3), (2, 3), (4, 3)], [(3,), (2, 3), (1, 3)], [(1, 1), (5, 1), (1, 6)], [(2, 3), (2, 3), (1, 3)], [(1, 3), (1, 3), (7, 3)]]
+    keys = ["m", "z", "a"]      # written order; sorted order is a, m, z
+    for fn, style in ((kw_b, "kwargs"), (kw_v, "kwargs"), (dict_b, "dict"), (dict_ret, "dict")):
+        for shapes in pools:
+            seen = {}
+            for perm in itertools.permutations(range(3)):
+                arrs = {keys[i]: jnp.zeros(shapes[perm[i]], jnp.float32) for i in range(3)}
+                call = (lambda f, a=arrs: f(**a)) if style == "kwargs" else (lambda f, a=arrs: f(a))
+                verdicts = {"eager": classify(lambda: call(fn))}
+                verdicts["jit"] = classify(lambda: call(jax.jit(fn)))
+                verdicts["eval_shape"] = classify(lambda: (jax.eval_shape(fn, **arrs) if style == "kwargs" else jax.eval_shape(fn, arrs)))
+                verdicts["vmap"] = classify(lambda: (jax.vmap(fn)(**{k: jnp.stack([v, v]) for k, v in arrs.items()}) if style == "kwargs"
+                                                     else jax.vmap(fn)({k: jnp.stack([v, v]) for k, v in arrs.items()})))
+                name = f"{fn.__name__} {[shapes[perm[i]] for i in range(3)]}"
+                out.case(("kworder", fn.__name__, tuple(shapes), perm), True, sample={"case": name, "verdicts": verdicts})
+                eager = verdicts["eager"]
+                seen[perm] = eager
+                for k_, v in verdicts.items():
+                    if v != eager:
+                        out.violation(f"trace-vs-eager:kworder:{fn.__name__}:{k_}", f"{name} (keys written as {keys}): the eager call is {eager} but under {k_} the same arrays give {v} "
+                                      f"(all verdicts: {verdicts})", {"kworder": name})
+                        break
+            if len(set(seen.values())) > 1:
+                out.violation(f"order:kworder:{fn.__name__}", f"{fn.__name__} on shapes {shapes}: the verdict depends on the order in which the same arrays are written: {seen}", {"kworder": str(shapes)})
+
+
 def run(tier, seed, out, drv, facts):
     rng = Rng(seed, "C17")
     thorough = tier == "thorough"
@@ -361,10 +416,13 @@ def run(tier, seed, out, drv, facts):
         run_case(out, drv, facts, case, rng)
     spy_checks(out, rng, 400 if thorough else 60)
     directed_cases(out, rng)
+    keyword_order_cases(out)
 
 
 def replay(rep, out, drv, facts):
-    if "directed" in rep:
+    if "kworder" in rep:
+        keyword_order_cases(out)
+    elif "directed" in rep:
         directed_cases(out, Rng(0, "replay"))
     elif "case" in rep:
         run_case(out, drv, facts, rep["case"], Rng(0, "replay"), tree_ok=bool(rep.get("tree_params")))
